@@ -1,24 +1,27 @@
 #!/bin/bash
 # usage: seed_eval.sh <PROP> <srcdir-with-patch.diff,demo_test.go,meta.json> <name>
 # Confirms a seeded change in a scratch worktree (compiles, existing tests pass, demo fails with / passes
-# without), stores it under /verif/seeded/<name>/, then runs the property's quick check against it.
+# without), stores it under /verif/seeded/<name>/, then runs the property's quick check against it the
+# prescribed way: git -C /repo apply, check, git -C /repo checkout -- .  (never run two of these at once)
 set -u
 PROP=$1; SRC=$2; NAME=${3:-$PROP}
 export GOFLAGS=-mod=mod GOPROXY=off GOSUMDB=off GOTOOLCHAIN=local
+if [ -n "$(git -C /repo status --porcelain)" ]; then echo "seed_eval: /repo is not clean"; exit 3; fi
 WT=/tmp/wt/confirm_$NAME
+mkdir -p /tmp/wt
 git -C /repo worktree remove --force $WT 2>/dev/null
 git -C /repo worktree add -q --detach $WT HEAD || exit 3
 PKG=$(python3 -c "import json;print(json.load(open('$SRC/meta.json')).get('demo_pkg','.'))")
 cd $WT
-if ! git apply $SRC/patch.diff; then echo "CONFIRM: patch does not apply"; exit 3; fi
-go build ./... || { echo "CONFIRM: does not compile"; exit 3; }
+if ! git apply $SRC/patch.diff; then echo "CONFIRM: patch does not apply"; cd /; git -C /repo worktree remove --force $WT; exit 3; fi
+go build ./... || { echo "CONFIRM: does not compile"; cd /; git -C /repo worktree remove --force $WT; exit 3; }
 cp $SRC/demo_test.go $WT/$PKG/zz_seeded_demo_test.go
-go test -vet=off -count=1 -run 'TestSeededDemo' $PKG > /tmp/confirm_$NAME.with.log 2>&1; WITH=$?
-git stash -q   # removes the source change only (demo test is untracked)
-go test -vet=off -count=1 -run 'TestSeededDemo' $PKG > /tmp/confirm_$NAME.without.log 2>&1; WITHOUT=$?
-git stash pop -q
+timeout 900 go test -vet=off -count=1 -run 'TestSeededDemo' $PKG > /tmp/confirm_$NAME.with.log 2>&1; WITH=$?
+git apply -R $SRC/patch.diff
+timeout 900 go test -vet=off -count=1 -run 'TestSeededDemo' $PKG > /tmp/confirm_$NAME.without.log 2>&1; WITHOUT=$?
+git apply $SRC/patch.diff
 rm -f $WT/$PKG/zz_seeded_demo_test.go
-go test -vet=off -count=1 -timeout 20m $PKG > /tmp/confirm_$NAME.suite.log 2>&1; SUITE=$?
+flock /tmp/seed_suite.lock timeout 1500 go test -vet=off -count=1 -timeout 20m $PKG > /tmp/confirm_$NAME.suite.log 2>&1; SUITE=$?
 echo "CONFIRM $NAME: demo-with-change exit=$WITH (want !=0), demo-without exit=$WITHOUT (want 0), existing tests of $PKG exit=$SUITE (want 0)"
 cd /verif
 git -C /repo worktree remove --force $WT
@@ -27,7 +30,7 @@ mkdir -p /verif/seeded/$NAME
 cp $SRC/patch.diff $SRC/demo_test.go $SRC/meta.json /verif/seeded/$NAME/
 # run the check against it
 git -C /repo apply /verif/seeded/$NAME/patch.diff || exit 3
-timeout 3000 /verif/bin/gosym check $PROP --tier quick > /tmp/confirm_$NAME.check.log 2>&1; CHK=$?
+GOSYM_OUT= GOSYM_REPO= timeout 3000 /verif/bin/gosym check $PROP --tier quick > /tmp/confirm_$NAME.check.log 2>&1; CHK=$?
 git -C /repo checkout -- .
 echo "CHECK $PROP against $NAME: exit=$CHK"
 grep -m3 "VIOLATION\|INCONCLUSIVE" /tmp/confirm_$NAME.check.log
@@ -39,5 +42,5 @@ m['confirmed']={'demo_fails_with_change':True,'demo_passes_without':True,'existi
 m['check_result']={'cmd':'/verif/bin/gosym check $PROP --tier quick','exit':$CHK,'detected':$CHK==1}
 json.dump(m,open(p,'w'),indent=1)
 PY
-# restore evidence of the unchanged tree later (caller re-runs the check)
+# the evidence file of the property now describes the patched tree: the caller re-runs the check afterwards
 exit 0
